@@ -3313,6 +3313,29 @@ M("b6-quiet-inputs-looked-up-with-find", "C11", "quiet", "src/convert.rs",
                 return Err(FromBristolError::InvalidWireIndex(unassigned));
             }
 """, "same look-ups written with find, still before the mark")
+M("l14-signed-range-bound-from-unsigned-type", "C09", "fire L14", "src/literal.rs",
+  """                    (Type::Signed(ty @ SignedNumType::I8), UnsignedNumType::U8)
+                    | (Type::Signed(ty @ SignedNumType::I16), UnsignedNumType::U16)
+                    | (Type::Signed(ty @ SignedNumType::I32), UnsignedNumType::U32)
+                    | (Type::Signed(ty @ SignedNumType::I64), UnsignedNumType::U64) => {
+                        ty.max().map(|ty_max| ty_max as u64)
+                    }""",
+  """                    (Type::Signed(SignedNumType::I8), UnsignedNumType::U8)
+                    | (Type::Signed(SignedNumType::I16), UnsignedNumType::U16)
+                    | (Type::Signed(SignedNumType::I32), UnsignedNumType::U32)
+                    | (Type::Signed(SignedNumType::I64), UnsignedNumType::U64) => num_ty.max(),""", "seed C09-m: Range(120, 130, U8) accepted for [i8; 10]")
+M("v19-mul-by-minus-one-is-identity", "C01", "fire V19", "src/compile.rs",
+  """                        if n == 0 {
+                            continue;
+                        }
+                        if n < bits {""",
+  """                        if n == 0 {
+                            continue;
+                        }
+                        if n == 1 {
+                            return y.compile(prg, env, circuit);
+                        }
+                        if n < bits {""", "seed C01-l: the magnitude of -1 is 1, the shortcut forgets the sign")
 M("b5-file-length-guard-dropped", "C11", "quiet", "src/convert.rs",
   """            if wires_num - input_wires > lines.len() {
                 return Err(FromBristolError::MalformedLine(line_str));
